@@ -353,7 +353,7 @@ def gen_op(rng, name, c):
         elif r < 0.9:
             a['v'] = tuple(elems(rng, c.profile, rng.randrange(0, 4)))
         else:
-            a['v'] = rng.choice([1, 'a', None, FD()])
+            a['v'] = rng.choice([1, 'a', FD()])   # (a null constant is rejected before the receiver is evaluated: C05/C11 matter)
     elif name == 'timesInt':
         a['n'] = rng.choice([-1, 0, 1, 2, 3])
     elif name == 'delete':
